@@ -42,9 +42,15 @@ func c12Func(fname string, names []string, exit int) string {
 	var b strings.Builder
 	fmt.Fprintf(&b, "func %s() {\n%s\n", fname, ex.wrapPre)
 	for _, n := range names {
+		if strings.HasPrefix(n, "&") {
+			// a completed nested block of the same name before the next one:
+			// m { m { } m { ... } }
+			fmt.Fprintf(&b, "mutex %s {\nhyield()\n}\n", n[1:])
+			n = n[1:]
+		}
 		fmt.Fprintf(&b, "mutex %s {\n", n)
 	}
-	inner := names[len(names)-1]
+	inner := strings.TrimPrefix(names[len(names)-1], "&")
 	fmt.Fprintf(&b, "enter(\"%s\")\nt := g%s\nhyield()\ng%s := t + 1\nleave(\"%s\")\n%s\n", inner, inner, inner, inner, ex.inner)
 	for range names {
 		b.WriteString("}\n")
@@ -170,6 +176,8 @@ func init() {
 		{"mixed-nested-2", [][]string{{"m", "n"}, {"m", "n"}}, 2, 2},
 		{"same-nested3-2", [][]string{{"m", "m", "m"}, {"m"}}, 1, 2},
 		{"same-flat-3", [][]string{{"m"}, {"m"}, {"m"}}, 1, 2},
+		// a nested block that was completed, then another one, still inside the outer block
+		{"same-seq-2", [][]string{{"m", "&m"}, {"m"}}, 1, 2},
 	}
 	for _, v := range vars {
 		for ex := range c12Exits {
